@@ -9,12 +9,15 @@ mod c07;
 mod c09;
 mod c10;
 mod c11;
+mod c12;
 #[cfg(feature = "ark")]
 mod c13;
 #[cfg(feature = "ark")]
 mod c14;
 #[cfg(feature = "ark")]
 mod c15;
+#[cfg(feature = "ark")]
+mod c16;
 #[cfg(feature = "ark")]
 mod r1cs_util;
 mod c17;
@@ -85,6 +88,11 @@ fn main() {
             let code = ctx.finish(level);
             std::process::exit(code);
         }
+        "c12dump" => {
+            if pos.len() < 3 { usage(); }
+            c12::dump(&pos[0], &pos[1], pos[2].parse().expect("chunk index"));
+            std::process::exit(0);
+        }
         "replay" => {
             if pos.is_empty() { usage(); }
             let doc: Value = serde_json::from_str(&std::fs::read_to_string(&pos[0]).expect("read replay")).expect("replay parses");
@@ -140,6 +148,15 @@ fn dispatch(ctx: &Arc<Ctx>) -> &'static str {
         #[cfg(feature = "ark")]
         "C15" => {
             c15::run(ctx);
+            "exploration"
+        }
+        #[cfg(feature = "ark")]
+        "C16" => {
+            c16::run(ctx);
+            "exploration"
+        }
+        "C12" => {
+            c12::run(ctx);
             "exploration"
         }
         "C17" => {
@@ -224,6 +241,11 @@ fn replay(doc: &Value) -> i32 {
                 },
                 #[cfg(feature = "ark")]
                 e if e.starts_with("E3/C15") => match guarded(|| c15::replay(&doc["case"])) {
+                    Ok(r) => r,
+                    Err(m) => (false, Value::String(format!("panic: {m}"))),
+                },
+                #[cfg(feature = "ark")]
+                e if e.starts_with("E3/C16") => match guarded(|| c16::replay(&doc["case"])) {
                     Ok(r) => r,
                     Err(m) => (false, Value::String(format!("panic: {m}"))),
                 },
